@@ -144,7 +144,7 @@ def fetch_script(h, life, settle=True):
 
 
 FETCH_EXT = ["ann p=1 c=1 direct=1", "ann p=2 c=1 direct=1", "ann p=1 c=2 direct=1", "chunk p=1 c=1 good=1", "chunk p=2 c=1 good=0", "chunk p=1 c=2 good=1",
-             "tick", "adv ms=1000", "adv ms=2000", "link p=1 up=0", "link p=1 up=1"]
+             "tick", "adv ms=1000", "adv ms=2000", "link p=1 up=0", "link p=1 up=1", "store c=1 ttl=3600"]
 
 
 def random_upload_behaviours(rng, n):
@@ -232,8 +232,11 @@ def random_fetch_behaviours(rng, n):
             elif x < 0.42:
                 p, c = rng.choice(anns) if anns and rng.random() < 0.8 else (rng.randint(1, peers), rng.randint(1, chunks))
                 lines.append("chunk p=%d c=%d good=%d" % (p, c, 0 if rng.random() < 0.25 else 1))
-            elif x < 0.60:
+            elif x < 0.58:
                 lines.append("tick")
+            elif x < 0.61:
+                # the chunk gets stored locally by other means while its fetch may be pending
+                lines.append("store c=%d ttl=%d" % (rng.choice(anns)[1] if anns else rng.randint(1, chunks), rng.choice([5, 3600])))
             elif x < 0.72:
                 lines.append("link p=%d up=%d" % (rng.randint(1, peers), rng.randint(0, 1)))
             else:
@@ -390,7 +393,8 @@ def uploads_traces(chk, hists):
     res = run_and_validate(chk, UPLOAD, [("tlc-state-cover", [upload_script(h) for h in hists]), ("tlc-transition-cover", ext),
                                          ("random", random_upload_behaviours(rng, 6000 if thorough else 400))])
     stats = [res["stats"]]
-    need(stats, ["sends", "dupsends", "nakdue", "releasedue", "atlimit"], "upload")
+    if not chk.viol:
+        need(stats, ["sends", "dupsends", "nakdue", "releasedue", "atlimit"], "upload")
     chk.assumptions += [
         "peers are stub sessions: a socketpair adopted by the node's real SessionManager; the driver reads, decrypts and decodes every frame the node sends",
         "requests / acks are injected through Node::handle_request / handle_acknowledge (friend access), ticks through Node::tick, virtual clock by link-time interposition",
@@ -430,7 +434,8 @@ def fetches_traces(chk, hists):
     res = run_and_validate(chk, FETCH, [("tlc-state-cover", [fetch_script(h, life) for h in hists]), ("tlc-transition-cover", ext),
                                         ("random", random_fetch_behaviours(rng, 6000 if thorough else 400))])
     stats = [res["stats"]]
-    need(stats, ["requests", "failedsends", "reannounce_inflight", "arrivals", "dropdue", "zerodue", "atlimit", "doubled", "capped"], "fetch")
+    if not chk.viol:
+        need(stats, ["requests", "failedsends", "reannounce_inflight", "arrivals", "dropdue", "zerodue", "atlimit", "doubled", "capped"], "fetch")
     chk.assumptions += [
         "providers are stub sessions (socketpair adopted by the node's real SessionManager); a send fails when the provider has no session; request frames are read and decoded by the driver",
         "announces are injected through Node::handle_announce (or, inside the sender's one-second announce throttle, straight into Node::schedule_assigned_fetch), arrivals through Node::handle_chunk with the real ciphertext of an origin node",
